@@ -415,6 +415,51 @@ def eval_frame_na(case):
     return ev
 
 
+# ---------------------------------------------------------------------------- series_aggregate
+
+
+@st.composite
+def strat_series_aggregate(draw):
+    """SeriesSchema / Index entry, nullable=True, nulls in the data, one check on the values as a whole
+    (unique_values_eq) or element by element: nulls are ignored whichever entry point runs the check."""
+    phys = draw(st.sampled_from(["float64", "object"]))
+    pool = [0.5, 1.0, 1.5, 2.0] if phys == "float64" else ["a", "b", "ab"]
+    n = draw(st.integers(2, 5))
+    cells = [draw(st.sampled_from(pool)) for _ in range(n)]
+    for i in sorted(draw(st.sets(st.integers(0, n - 1), min_size=1, max_size=2))):
+        cells[i] = None
+    vals = sorted({c for c in cells if c is not None}) or [pool[0]]
+    mode = draw(st.sampled_from(["uve-exact", "uve-exact", "uve-more", "uve-less", "elementwise"]))
+    if mode == "uve-exact":
+        cs = {"kind": "unique_values_eq", "args": {"values": vals}}
+    elif mode == "uve-more":
+        cs = {"kind": "unique_values_eq", "args": {"values": sorted(set(vals) | {pool[-1], pool[0]})}}
+    elif mode == "uve-less":
+        cs = {"kind": "unique_values_eq", "args": {"values": vals[:1]}}
+    else:
+        cs = {"kind": "isin", "args": {"allowed_values": vals}}
+    dtype = "float64" if phys == "float64" else "str"
+    field = {"dtype": dtype, "nullable": True, "unique": False, "checks": [cs], "name": None}
+    where = draw(st.sampled_from(["series", "series", "index"]))
+    if where == "series":
+        spec = {"kind": "series", "columns": [field], "index": None}
+        table = {"columns": [{"name": None, "phys": phys, "cells": cells}], "index": None}
+    else:
+        spec = {"kind": "dataframe", "columns": [{"name": "a", "dtype": "int64", "nullable": False, "unique": False, "checks": [],
+                                                  "required": True}],
+                "index": dict(field, name=None), "strict": False, "ordered": False}
+        table = {"columns": [{"name": "a", "phys": "int64", "cells": list(range(n))}],
+                 "index": {"name": None, "phys": phys, "cells": cells}}
+    return {"spec": spec, "table": table, "series_aggregate": mode + ":" + where}
+
+
+def eval_series_aggregate(case):
+    ev = evaluate(case)
+    ev.labels.append("mode=" + case["series_aggregate"].split(":")[0])
+    ev.labels.append("entry=" + case["series_aggregate"].split(":")[1])
+    return ev
+
+
 FAMILIES = [
     Family("frames", evaluate, strategy=lambda: gen.repaired_case(), n_quick=1400, n_thorough=6000, shards_quick=4,
            shards_thorough=16,
@@ -426,6 +471,8 @@ FAMILIES = [
            shards_thorough=8, required_labels=["reason=DUPLICATES", "ref=accept", "nested:absent-set-first"]),
     Family("int_labels", evaluate, strategy=lambda: gen.repaired_case().flatmap(gen.int_labelled), n_quick=500, n_thorough=3000,
            shards_quick=2, shards_thorough=8, required_labels=["ref=accept", "ref=reject", "has:regex", "int-labels"]),
+    Family("series_aggregate", eval_series_aggregate, strategy=strat_series_aggregate, n_quick=200, n_thorough=1500, shards_quick=2,
+           shards_thorough=6, required_labels=["ref=accept", "ref=reject", "entry=series", "entry=index", "mode=uve-exact"]),
     Family("frame_na", eval_frame_na, strategy=strat_frame_na, n_quick=300, n_thorough=2000, shards_quick=2, shards_thorough=6,
            required_labels=["only-nulls-reject", "ref=accept", "declared=no"]),
     Family("revalidate", eval_revalidate, strategy=strat_revalidate, n_quick=800, n_thorough=3000, shards_quick=3,
